@@ -9,14 +9,28 @@ PINS = [('plasTeX/__init__.py', 'expandDef'), ('plasTeX/__init__.py', 'Definitio
         ('plasTeX/TeX.py', 'TeX.readToken'), ('plasTeX/TeX.py', 'TeX.readGrouping'), ('plasTeX/TeX.py', 'TeX.readOptionalSpaces'),
         ('plasTeX/TeX.py', 'TeX.readArgumentAndSource'), ('plasTeX/Context.py', 'Context.newdef'), ('plasTeX/Context.py', 'Context.newcommand'),
         ('plasTeX/Context.py', 'Context.let'), ('plasTeX/Base/TeX/Primitives.py', 'csname.invoke'), ('plasTeX/Base/TeX/Primitives.py', 'expandafter.invoke'),
-        ('plasTeX/Base/TeX/Primitives.py', 'DefCommand.invoke'), ('plasTeX/Base/LaTeX/Definitions.py', 'newcommand.invoke')]
+        ('plasTeX/Base/TeX/Primitives.py', 'DefCommand.invoke'), ('plasTeX/Base/LaTeX/Definitions.py', 'newcommand.invoke'),
+        # the expansion engine (Model/Engine.v)
+        ('plasTeX/TeX.py', 'TeX.__iter__'), ('plasTeX/TeX.py', 'TeX.itertokens'), ('plasTeX/TeX.py', 'TeX.pushToken'), ('plasTeX/TeX.py', 'TeX.pushTokens'),
+        ('plasTeX/Tokenizer.py', 'Tokenizer.pushToken'), ('plasTeX/Tokenizer.py', 'Tokenizer.pushTokens'), ('plasTeX/TeX.py', 'TeX.processIfContent'),
+        ('plasTeX/TeX.py', 'TeX.readInteger'), ('plasTeX/TeX.py', 'TeX.readSequence'), ('plasTeX/TeX.py', 'TeX.readOptionalSigns'),
+        ('plasTeX/Context.py', 'Context.__getitem__'), ('plasTeX/Context.py', 'Context.push'), ('plasTeX/Context.py', 'Context.pop'),
+        ('plasTeX/Context.py', 'Context.addLocal'), ('plasTeX/Context.py', 'Context.addGlobal'), ('plasTeX/__init__.py', 'Macro.invoke'),
+        ('plasTeX/Base/TeX/Text.py', 'bgroup.invoke'), ('plasTeX/Base/TeX/Text.py', 'egroup.invoke'),
+        ('plasTeX/Base/TeX/Primitives.py', 'ifnum.invoke'), ('plasTeX/Base/TeX/Primitives.py', 'iftrue.invoke'), ('plasTeX/Base/TeX/Primitives.py', 'iffalse.invoke'),
+        ('plasTeX/Base/TeX/Primitives.py', 'ifcase.invoke')]
 RULE = ('(a) \\def parameter texts in normal form (literal prefix, 0-9 parameters, each undelimited or delimited by 1-2 tokens) with '
         'conforming calls (braced balanced undelimited arguments, delimited arguments free of the delimiter token) and bodies of literals, '
         '#k, ##; \\newcommand with 0-9 arguments, optional argument present/absent; plus a malformed soup of random parameter texts, bodies and '
         'streams. (b) programs: top-level definitions (\\def, \\gdef, \\newcommand, \\renewcommand, optional arguments, delimited patterns, '
         '\\csname-built names), nested calls in bodies and arguments, \\let aliases, local redefinitions inside arbitrarily nested groups, '
-        'conditionals in bodies. Non-trivial = at least one macro with parameters is called with a non-empty argument.')
-TRUSTED = ['program level: the reference evaluator Spec/MacroLang.v is the oracle (run . print = den is staged, not a theorem); printer harness/macrolang.py',
+        'conditionals in bodies. Non-trivial = at least one macro with parameters is called with a non-empty argument. '
+        '(c) the expansion engine on token lists: programs of the fragments F1/F2 of Spec/MacroPrint.v and beyond them (delimited parameters, ##, nested '
+        'definitions, blank-terminated numbers) tokenized by the real Tokenizer; malformed token lists; all token lists of length <= 2 (3) over 14 tokens; '
+        'observed: every yielded item, the context depth, the final meaning of every user macro. (d) Spec/MacroPrint.print against the real Tokenizer.')
+TRUSTED = ['program level: run . print = den is a theorem on the fragments F1/F2 (C02_engine_simulates_F1/F2: parameterless and undelimited-parameter macros, '
+           'groups, \\iftrue/\\iffalse/\\ifnum on literals); beyond them the reference evaluator Spec/MacroLang.v is an oracle and the printer harness/macrolang.py is trusted',
+           'the engine Model (Model/Engine.v) = TeX.__iter__ and what it calls, and Spec/MacroPrint.print = the real Tokenizer on the printed source, are differential testing',
            'modelled, not verified: Token.__eq__ as (category, text) equality; \\csname/\\expandafter/\\let themselves are only covered at program level']
 ASSUMPTIONS = ['normal form NF-macro of DESIGN section 9']
 CASE_TIMEOUT = 20
